@@ -3,7 +3,7 @@
 //! producer (bio writer over SimWrite) → storage (identity | CRLF | foreign re-layout | cut |
 //! corruption) → consumer (bio reader over SimRead / SimBufRead / SimSeekRead).
 
-use crate::gen::{bytes_from, show, split_points, string_from};
+use crate::gen::{bytes_from, magic_size, near_magic, show, split_points, string_from};
 use crate::runner::{fail, Property, Scenario, Verdict};
 use crate::world::{IoCfg, SimBufRead, SimRead, SimSeekRead, SimWrite, World, W};
 use bio::io::fasta::FastaRead;
@@ -13,6 +13,7 @@ use serde_json::json;
 use std::cell::RefCell;
 use std::io::{self, BufRead, BufReader, BufWriter, Write};
 use std::rc::Rc;
+use std::sync::OnceLock;
 
 #[derive(Clone, Debug, PartialEq, Eq)]
 pub struct Rec {
@@ -34,22 +35,95 @@ pub enum Kind {
     Fastq,
 }
 
-const ID_CHARS: [char; 22] = [
-    'a', 'b', 'Z', '0', '_', '>', '@', '+', '|', ':', '.', '-', 'é', 'ß', '中', '😀', '#', ';',
-    '=', '"', '/', '\\',
-];
-const DESC_CHARS: [char; 20] = [
-    'd', 'e', ' ', '\t', '>', '@', '+', 'é', '中', '=', '1', ';', '\u{a0}', '\u{3000}', '|', '"',
-    '\'', ',', 'X', '😀',
-];
-const SEQ_CHARS: &[u8] = b"ACGTNacgtnRYKMSWBDHVUX*-.";
+/// id alphabet: 'a' first (simplest), then every printable ASCII character and some multi-byte ones.
+/// No Unicode white space.
+fn id_chars() -> &'static [char] {
+    static A: OnceLock<Vec<char>> = OnceLock::new();
+    A.get_or_init(|| {
+        let mut v = vec!['a', 'b', 'Z', '0', '_', '>', '@', '+'];
+        for c in 33u8..=126 {
+            if !v.contains(&(c as char)) {
+                v.push(c as char);
+            }
+        }
+        v.extend(['é', 'ß', '中', '😀', '\u{7f}', '\u{200b}', 'ı', '\u{301}']);
+        v
+    })
+}
 
-fn gen_records(w: &World, kind: Kind, large: bool) -> Vec<Rec> {
+/// description alphabet: printable ASCII, blank, tab, a few non-line-break controls, multi-byte
+/// characters including non-breaking and ideographic space (white space, but not line breaks).
+fn desc_chars() -> &'static [char] {
+    static A: OnceLock<Vec<char>> = OnceLock::new();
+    A.get_or_init(|| {
+        let mut v = vec!['d', 'e', ' ', '\t', '>', '@', '+', '='];
+        for c in 33u8..=126 {
+            if !v.contains(&(c as char)) {
+                v.push(c as char);
+            }
+        }
+        v.extend(['é', '中', '😀', '\u{a0}', '\u{3000}', '\u{1}', '\u{1b}', '\u{7f}', '\u{2003}', '\u{feff}']);
+        v
+    })
+}
+
+const SEQ_CHARS: &[u8] = b"ACGTNacgtnRYKMSWBDHVUXrykmswbdhvux*-.EFILPQZefilpqzJOjo";
+
+#[derive(Clone, Copy, PartialEq, Eq, Debug)]
+enum Scale {
+    Small,
+    /// sequences up to 20 000 (crosses the 8 KiB buffers for real)
+    Large,
+    /// up to 300 small records
+    Many,
+    /// one sequence up to 200 000 and headers up to 10 000 characters (crosses 64 KiB)
+    Huge,
+}
+
+fn gen_scale(w: &World) -> Scale {
+    match w.draw(600) {
+        0..=579 => Scale::Small,
+        580..=591 => Scale::Large,
+        592..=597 => Scale::Many,
+        _ => Scale::Huge,
+    }
+}
+
+/// Long residue / quality strings come from a two-draw pattern, not one draw per byte.
+fn pattern_seq(w: &World, len: usize) -> Vec<u8> {
+    let a = w.draw(SEQ_CHARS.len() as u64) as usize;
+    let b = 1 + w.draw(7) as usize;
+    (0..len).map(|i| SEQ_CHARS[(a + i * b + i / 11 + i / 257) % SEQ_CHARS.len()]).collect()
+}
+fn pattern_qual(w: &World, len: usize) -> Vec<u8> {
+    let a = w.draw(94) as usize;
+    let b = 1 + w.draw(11) as usize;
+    (0..len).map(|i| 33 + ((a + i * b + i / 13 + i / 251) % 94) as u8).collect()
+}
+
+fn gen_records(w: &World, kind: Kind, scale: Scale, magic: Option<usize>) -> Vec<Rec> {
     let mut v: Vec<Rec> = Vec::new();
-    while w.more(v.len() as u64, 6) {
-        let id = string_from(w, &ID_CHARS, 1, 8);
+    let max_recs = if scale == Scale::Many { 300 } else { 6 };
+    loop {
+        let go = if scale == Scale::Many {
+            (v.len() as u64) < max_recs && w.chance(60, 61)
+        } else {
+            w.more(v.len() as u64, max_recs)
+        };
+        if !go {
+            break;
+        }
+        let id = if scale == Scale::Huge && w.chance(1, 4) {
+            string_from(w, id_chars(), 1, 3000)
+        } else {
+            string_from(w, id_chars(), 1, 8)
+        };
         let desc = if w.chance(1, 2) {
-            let mut d = string_from(w, &DESC_CHARS, 1, 12);
+            let mut d = if scale == Scale::Huge && w.chance(1, 2) {
+                string_from(w, desc_chars(), 1, 10_000)
+            } else {
+                string_from(w, desc_chars(), 1, 12)
+            };
             // a description never ends in white space (DESIGN §4.1: domain)
             if d.chars().last().map(|c| c.is_whitespace()).unwrap_or(false) {
                 d.push('x');
@@ -58,14 +132,16 @@ fn gen_records(w: &World, kind: Kind, large: bool) -> Vec<Rec> {
         } else {
             None
         };
-        let len = if large && w.chance(1, 2) {
-            w.range(1, 20_000)
-        } else {
-            w.small(1, 40)
+        let len = match (scale, magic) {
+            (Scale::Large, _) if w.chance(1, 2) => w.range(1, 20_000) as usize,
+            (Scale::Huge, _) if w.chance(1, 2) => w.range(1, 200_000) as usize,
+            (Scale::Many, _) => w.small(1, 40) as usize,
+            (_, Some(m)) if w.chance(1, 2) => near_magic(w, m, 300_000),
+            _ => w.small(1, 40) as usize,
         };
-        let seq = bytes_from(w, SEQ_CHARS, len);
+        let seq = if len > 64 { pattern_seq(w, len) } else { bytes_from(w, SEQ_CHARS, len as u64) };
         let qual = if kind == Kind::Fastq {
-            let mut q: Vec<u8> = (0..len).map(|_| 33 + w.draw(94) as u8).collect();
+            let mut q: Vec<u8> = if len > 64 { pattern_qual(w, len) } else { (0..len).map(|_| 33 + w.draw(94) as u8).collect() };
             match w.draw(4) {
                 1 => q[0] = b'@',
                 2 => q[0] = b'+',
@@ -97,17 +173,25 @@ struct WriterCfg {
     flush: bool,
 }
 
-const WCAPS: [usize; 6] = [8192, 0, 1, 2, 7, 64];
+const WCAPS: [usize; 14] = [8192, 0, 1, 2, 7, 64, 3, 16, 100, 1000, 4096, 32768, 65536, 8193];
 
-fn gen_writer_cfg(w: &World, kind: Kind, recs: &[Rec]) -> WriterCfg {
+fn gen_writer_cfg(w: &World, kind: Kind, recs: &[Rec], magic: Option<usize>) -> WriterCfg {
     let ctor = w.draw(3) as u8;
-    let cap = if ctor == 0 { 8192 } else { *w.pick(&WCAPS) };
+    let cap = if ctor == 0 {
+        8192
+    } else {
+        match magic {
+            Some(m) if w.chance(1, 3) => m,
+            _ => *w.pick(&WCAPS),
+        }
+    };
     let maxlen = recs.iter().map(|r| r.seq.len()).max().unwrap_or(1);
     let wrap = if kind == Kind::Fasta && w.chance(1, 2) {
-        Some(match w.draw(4) {
-            0 => 1 + w.draw(maxlen.min(12) as u64) as usize,
-            1 => 60,
-            2 => 1 + w.draw(maxlen as u64 + 2) as usize,
+        Some(match (w.draw(4), magic) {
+            (_, Some(m)) if w.chance(1, 2) => m,
+            (0, _) => 1 + w.draw(maxlen.min(12) as u64) as usize,
+            (1, _) => 60,
+            (2, _) => 1 + w.draw(maxlen as u64 + 2) as usize,
             _ => 70,
         })
     } else {
@@ -224,8 +308,11 @@ fn producer_phase(w: &W, kind: Kind, recs: &[Rec], wcfg: &WriterCfg, iocfg: IoCf
             w.probe("writer_buffer_smaller_than_field");
         }
     }
-    if wcfg.wrap.is_some() {
+    if let Some(wd) = wcfg.wrap {
         w.fired("knob_linewrap");
+        if wd >= 64 && recs.iter().any(|r| r.seq.len() >= wd) {
+            w.probe("wrap_equals_magic_and_sequence_reaches_it");
+        }
     }
     w.clause("C11.a-sink");
     if let Err(e) = res {
@@ -603,7 +690,7 @@ fn consume_either<B: BufRead>(mut it: fastx::EitherRecords<B>, ask_kind: bool, m
     p.ended = true;
 }
 
-const RCAPS: [usize; 8] = [8192, 1, 2, 3, 5, 16, 64, 512];
+const RCAPS: [usize; 16] = [8192, 1, 2, 3, 5, 16, 64, 512, 7, 100, 1000, 4096, 8191, 8193, 32768, 65536];
 
 #[derive(Clone, Copy, Debug)]
 struct ReaderCfg {
@@ -617,12 +704,24 @@ struct ReaderCfg {
     io: IoCfg,
 }
 
-fn gen_reader_cfg(w: &World, allow_sniff: bool, allow_eintr: bool) -> ReaderCfg {
+fn gen_reader_cfg(w: &World, allow_sniff: bool, allow_eintr: bool, magic: Option<usize>) -> ReaderCfg {
     let ctor = w.draw(if allow_sniff { 8 } else { 4 }) as u8;
-    let cap = if ctor == 0 { 8192 } else { *w.pick(&RCAPS) };
+    let cap = if ctor == 0 {
+        8192
+    } else {
+        match magic {
+            Some(m) if w.chance(1, 3) => m,
+            _ => *w.pick(&RCAPS),
+        }
+    };
     let iter_api = !w.chance(1, 3);
     let ask_kind = w.chance(1, 2);
-    let io = IoCfg::draw(w, allow_eintr);
+    let mut io = IoCfg::draw(w, allow_eintr);
+    if let Some(m) = magic {
+        if w.chance(1, 4) {
+            io.chunk = crate::world::Chunk::Fixed(m);
+        }
+    }
     ReaderCfg {
         ctor,
         cap,
@@ -835,11 +934,22 @@ fn check_roundtrip(w: &World, clause: &'static str, p: &Parsed, expected: &[Rec]
 }
 
 fn roundtrip(w: &W, kind: Kind, with_cut: bool) -> Verdict {
-    let large = w.chance(1, 50);
-    if large {
-        w.probe("large_regime");
+    let scale = gen_scale(w);
+    match scale {
+        Scale::Small => {}
+        Scale::Large => w.probe("large_regime"),
+        Scale::Many => w.probe("many_records_regime"),
+        Scale::Huge => w.probe("huge_regime"),
     }
-    let recs = gen_records(w, kind, large);
+    // a per-run magic size that wrap, capacities, chunk size and lengths may share
+    let magic = if w.chance(1, 4) { Some(magic_size(w, 17)) } else { None };
+    if let Some(m) = magic {
+        w.probe("magic_size_run");
+        if w.keep_trace {
+            w.note("magic_size", json!(m));
+        }
+    }
+    let recs = gen_records(w, kind, scale, magic);
     if !recs.is_empty() {
         w.probe("workload_nonempty");
     }
@@ -853,7 +963,7 @@ fn roundtrip(w: &W, kind: Kind, with_cut: bool) -> Verdict {
         w.note("format", json!(format!("{:?}", kind)));
         w.note("workload", json!(recs.iter().map(|r| r.json()).collect::<Vec<_>>()));
     }
-    let wcfg = gen_writer_cfg(w, kind, &recs);
+    let wcfg = gen_writer_cfg(w, kind, &recs, magic);
     if w.keep_trace {
         w.note(
             "writer",
@@ -871,7 +981,7 @@ fn roundtrip(w: &W, kind: Kind, with_cut: bool) -> Verdict {
     };
     let written = producer_phase(w, kind, &recs, &wcfg, wio)?;
     let (mut img, st) = store(w, kind, &recs, &wcfg, &written);
-    let mut rc = gen_reader_cfg(w, true, eintr_on);
+    let mut rc = gen_reader_cfg(w, true, eintr_on, magic);
     if !faults_on {
         rc.io = IoCfg::CLEAN;
     }
@@ -1039,7 +1149,7 @@ fn judge_cut(w: &World, kind: Kind, recs: &[Rec], boundaries: &[usize], c: usize
 
 /// Every cut offset of one small file, each with a freshly drawn reader and read schedule.
 fn cut_sweep(w: &W, kind: Kind) -> Verdict {
-    let mut recs = gen_records(w, kind, false);
+    let mut recs = gen_records(w, kind, Scale::Small, None);
     recs.truncate(3);
     for r in recs.iter_mut() {
         r.seq.truncate(12);
@@ -1065,7 +1175,7 @@ fn cut_sweep(w: &W, kind: Kind) -> Verdict {
         w.note("sweep", json!(format!("every cut offset 0..={}", img.bytes.len())));
     }
     for c in 0..=img.bytes.len() {
-        let mut rc = gen_reader_cfg(w, true, false);
+        let mut rc = gen_reader_cfg(w, true, false, None);
         if !faults_on {
             rc.io = IoCfg::CLEAN;
         }
@@ -1121,7 +1231,7 @@ fn fx_garbage(w: &W) -> Verdict {
             w.fired("garbage_uniform");
         }
         _ => {
-            recs = gen_records(w, kind, false);
+            recs = gen_records(w, kind, Scale::Small, None);
             let splits: Vec<Vec<usize>> = recs.iter().map(|r| split_points(w, r.seq.len(), 3)).collect();
             let crlf = w.chance(1, 3);
             bytes = layout(kind, &recs, &splits, crlf).bytes;
@@ -1151,7 +1261,7 @@ fn fx_garbage(w: &W) -> Verdict {
         w.probe("garbage_invalid_utf8");
     }
     let faults_on = w.chance(1, 2);
-    let mut rc = gen_reader_cfg(w, true, false);
+    let mut rc = gen_reader_cfg(w, true, false, None);
     if !faults_on {
         rc.io = IoCfg::CLEAN;
     }
@@ -1206,7 +1316,7 @@ pub fn property() -> Property {
             "header_split_across_reads", "cr_lf_in_different_reads", "utf8_char_split_across_reads", "first_byte_delivered_alone",
             "cut_at_record_boundary", "cut_inside_header", "cut_inside_plus_line", "cut_inside_quality", "cut_inside_sequence", "cut_inside_terminator",
             "quality_starts_with_at", "quality_starts_with_plus", "writer_buffer_smaller_than_field", "relayout_multiline_crlf",
-            "sniffer_used", "large_regime", "cut_sweep", "garbage_invalid_utf8", "garbage_rejected_with_error",
+            "sniffer_used", "magic_size_run", "wrap_equals_magic_and_sequence_reaches_it", "large_regime", "many_records_regime", "huge_regime", "cut_sweep", "garbage_invalid_utf8", "garbage_rejected_with_error",
         ],
         quick_runs: 400_000,
         thorough_runs: 30_000_000,
